@@ -112,7 +112,7 @@ Lemma srt_cursor_step_inv attached c e :
   srt_cur_inv c ->
   match srt_cursor_step attached c e with
   | inl c' => srt_cur_inv c'
-  | inr o => is_internal o = true -> match e with EvStart _ (Some ColorNoValue) => True | _ => False end
+  | inr o => is_internal o = false
   end.
 Proof.
   unfold srt_cur_inv. intro I. destruct c as [p open]; simpl in I; subst p.
@@ -120,24 +120,52 @@ Proof.
   - assert (A : accepts_inline (cursor_of (length open)) = None) by (destruct open; reflexivity). rewrite A.
     assert (C : (match cursor_of (length open) with CSpan d => CSpan (S d) | _ => CSpan O end) = cursor_of (S (length open)))
       by (destruct open; reflexivity).
-    rewrite C. destruct f as [[| | |]|]; simpl; auto; discriminate.
+    rewrite C. destruct f as [[| | |]|]; simpl; auto.
   - destruct open as [|top rest]; [reflexivity|].
     destruct (top =? tag); [|reflexivity]. destruct rest; reflexivity.
   - assert (A : accepts_inline (cursor_of (length open)) = None) by (destruct open; reflexivity). rewrite A. reflexivity.
 Qed.
 
-Lemma srt_cursor_loop_partial attached es : forall c,
-  srt_cur_inv c -> srt_font_novalue es = false -> is_internal (srt_cursor_loop attached c es) = false.
+Lemma srt_cursor_loop_total attached es : forall c,
+  srt_cur_inv c -> is_internal (srt_cursor_loop attached c es) = false.
 Proof.
-  induction es as [|e rest IH]; intros c I Hf; [reflexivity|].
-  unfold srt_font_novalue in Hf. simpl in Hf. apply orb_false_iff in Hf as [He Hr].
+  induction es as [|e rest IH]; intros c I; [reflexivity|].
   simpl. pose proof (srt_cursor_step_inv attached c e I) as S.
-  destruct (srt_cursor_step attached c e) as [c'|o].
-  - apply IH; assumption.
-  - destruct (is_internal o) eqn:Io; [|reflexivity]. specialize (S eq_refl).
-    destruct e as [tag [[| | |]|]| |]; try contradiction. discriminate.
+  destruct (srt_cursor_step attached c e) as [c'|o]; [apply IH; assumption|exact S].
 Qed.
 
-Lemma srt_cursor_partial attached es :
-  srt_font_novalue es = false -> is_internal (srt_cursor_run attached es) = false.
-Proof. intros. apply srt_cursor_loop_partial; [reflexivity|assumption]. Qed.
+(* every callback sequence: unmatched, mismatched and surplus end tags, <font> with any kind of color attribute *)
+Lemma srt_cursor_total attached es : is_internal (srt_cursor_run attached es) = false.
+Proof. apply srt_cursor_loop_total. reflexivity. Qed.
+
+(* the cursor is never above the paragraph: after any prefix of callbacks that does not end the parse it is the paragraph or a
+   span below it, exactly as deep as there are open tags *)
+Fixpoint srt_cursor_state (attached : bool) (c : srt_cur) (es : list srt_event) : option srt_cur :=
+  match es with
+  | [] => Some c
+  | e :: rest => match srt_cursor_step attached c e with inr _ => None | inl c' => srt_cursor_state attached c' rest end
+  end.
+
+Lemma srt_cursor_below_p attached es : forall c c',
+  srt_cur_inv c -> srt_cursor_state attached c es = Some c' -> srt_cur_inv c'.
+Proof.
+  induction es as [|e rest IH]; intros c c' I H; simpl in H; [inversion H; subst; assumption|].
+  pose proof (srt_cursor_step_inv attached c e I) as S.
+  destruct (srt_cursor_step attached c e) as [c1|o]; [eapply IH; eauto|discriminate].
+Qed.
+
+(* ---------------------------------------------------------------------------------------------- line machine + cursor *)
+(* the oracle answer of one _TextParser invocation whose html.parser callbacks are [es] *)
+Definition sub_of_outcome (o : outcome) : sub_result :=
+  match o with Internal k => SubInternal k | FormatError k => SubFormat k | _ => SubOk end.
+Definition srt_cue_oracle (cues : list (bool * list srt_event)) : list sub_result :=
+  map (fun c => sub_of_outcome (srt_cursor_run (fst c) (snd c))) cues.
+
+Lemma srt_cue_oracle_clean cues r : In r (srt_cue_oracle cues) -> sub_is_internal r = false.
+Proof.
+  unfold srt_cue_oracle. intro H. apply in_map_iff in H as [[a es] [E _]]. subst. simpl.
+  pose proof (srt_cursor_total a es) as T. destruct (srt_cursor_run a es); simpl in *; try reflexivity. discriminate.
+Qed.
+
+Lemma srt_composed_total cues content : is_internal (srt_run (srt_cue_oracle cues) content) = false.
+Proof. apply srt_total. apply srt_cue_oracle_clean. Qed.
